@@ -79,7 +79,9 @@ int main(int argc, char** argv) {
       auto rotz = [&](const ld* r, double lon, ld* o) { ld s, c; geod_ode::sincosd<ld>(lon, s, c); o[0] = c * r[0] + s * r[1]; o[1] = -s * r[0] + c * r[1]; o[2] = r[2]; };
       ld r2in1[3], r1in2[3]; rotz(r2, P.lon1, r2in1); rotz(r1, P.lon2, r1in2);
       const bool pole1 = fabs(P.lat1) == 90, pole2 = fabs(P.lat2) == 90;
-      const bool antilat = P.lat1 == -P.lat2 && !pole1;
+      // latitudes below the AngRound threshold are forced to exactly 0 by the solvers (documented purpose of Math::AngRound),
+      // so "lat1 = -lat2" (documented non-unique shortest geodesic) is judged on the rounded values
+      const bool antilat = Math::AngRound(P.lat1) == -Math::AngRound(P.lat2) && !pole1;
       const bool lon180 = fabsl(remainderl((ld)P.lon2 - (ld)P.lon1, 360.0L)) == 180 && !pole1 && !pole2;
       // opposite poles (and antipodal points of a sphere): azimuths and hence S12 are free (Geodesic.hpp, third documented case)
       const bool freeazi = (pole1 && pole2 && P.lat1 == -P.lat2) || (E.f == 0 && P.lat1 == -P.lat2 && fabsl(remainderl((ld)P.lon2 - (ld)P.lon1, 360.0L)) == 180);
